@@ -59,11 +59,24 @@ def conjuncts(test, polarity=True):
     return [(src_of(test), polarity)]
 
 
+class Facts(list):
+    """facts implied at a node; membership is tested on canonical atoms, so `a != b` true and `a == b` false are the same fact"""
+
+    def __contains__(self, item):
+        from ..dtable import canon_atom
+        src, pol = item
+        want = canon_atom(src, pol)
+        for s_, p_ in list.__iter__(self):
+            if (s_, p_) == (src, pol) or canon_atom(s_, p_) == want:
+                return True
+        return False
+
+
 def implied_facts(p, f, node):
-    out = []
-    for t, pol in enclosing_tests(p, f, node):
-        out += conjuncts(t, pol)
-    return out
+    """tests known to hold / fail at `node`: enclosing if/while/conditional-expression/and/or tests and earlier guard clauses"""
+    from .. import shape
+    pm = shape.parent_map(f.node)
+    return Facts(shape.implied(node, pm))
 
 
 # ---------------------------------------------------------------- CNT-DEPTH
@@ -119,10 +132,8 @@ def cnt_depth(p, res):
     # literal(): the closing brace test compares the running depth with the depth at entry
     f = p.func('abbreviation.tokenizer.literal')
     s = src_of(f.node)
-    if "expression_start = ctx['expression']" in s and "if ctx['expression'] > expression_start:" in s:
-        res.ok("literal(): nested } recognised by ctx['expression'] > expression_start")
-    else:
-        res.bad(F('CNT-DEPTH', f, f.node, "ctx['expression'] > expression_start", 'a } closes the text only when the depth is back at its value on entry'))
+    from .tablecheck import check_table
+    check_table(p, res, 'CNT-DEPTH', 'abbreviation.tokenizer.literal', 'a } closes the text only when the depth is back at its value on entry; quotes and expressions are tracked through ctx')
     res.require_floor(20)
 
 
@@ -210,32 +221,37 @@ def sib_quote(p, res):
     for fq, c in sites:
         f = p.func(fq)
         peeks = [n for n in f.body_nodes() if isinstance(n, ast.Assign) and src_of(n.value) == '%s.peek()' % c and isinstance(n.targets[0], ast.Name)]
+        from .tablecheck import check_table
+        if fq != 'scanner_utils.eat_quoted' and fq != 'css_matcher.scan.literal':        # those two tables belong to SIB-ESCAPE
+            check_table(p, res, 'SIB-QUOTE', fq, 'a quoted string is closed by the same quote character that opened it')
         if len(peeks) != 1:
-            raise AnalysisError('SIB-QUOTE: opening quote of %s not recognised' % fq)
+            res.undecided('%s: opening quote' % fq, 'one local holding <scanner>.peek() expected')
+            continue
         q = peeks[0].targets[0].id
         loops = [n for n in f.body_nodes() if isinstance(n, ast.While)]
         if len(loops) != 1:
-            raise AnalysisError('SIB-QUOTE: scanning loop of %s not recognised' % fq)
+            res.undecided('%s: scanning loop' % fq, 'one while loop expected')
+            continue
         closes = sorted([n for n in ast.walk(loops[0]) if isinstance(n, ast.Call) and src_of(n.func) == '%s.eat' % c and n.args],
                         key=lambda n: (n.lineno, n.col_offset))
         first = closes[0] if closes else None
         if first is not None and src_of(first.args[0]) == q:
             res.ok('%s: opened by %s = %s.peek(), closed by %s.eat(%s)' % (f.short, q, c, c, q))
+        elif first is not None and (src_of(first.args[0]) in ('is_quote',) or (isinstance(first.args[0], ast.Attribute) and 'Quote' in first.args[0].attr)):
+            res.bad(F('SIB-QUOTE', f, first, src_of(first),
+                      'the closing quote must be the very character that opened the string (`%s`); this test ends the string at either kind of quote / at a fixed kind' % q))
         else:
-            res.bad(F('SIB-QUOTE', f, first or loops[0], src_of(first) if first is not None else 'closing test',
-                      'the closing quote must be the very character that opened the string (`%s`); any other test ends the string at the other kind of quote' % q))
+            res.undecided('%s: closing test %s' % (f.short, src_of(first) if first is not None else '?'), 'the string is closed by eating the character that opened it')
         # the opener is recognised with is_quote on the same variable / position
         s = src_of(f.node)
         if ('is_quote(%s)' % q) in s or ('%s.eat(is_quote)' % c) in s:
             res.ok('%s: opener tested with is_quote' % f.short)
         else:
-            res.bad(F('SIB-QUOTE', f, f.node, 'is_quote test of the opener', 'string must start at a quote character'))
+            res.undecided('%s: is_quote test of the opener' % f.short, 'string must start at a quote character')
     # token-level: parser.quoted closes with a quote of the same kind
     f = p.func('abbreviation.parser.quoted')
-    if 'is_quote(scanner.next(), quote.single)' in src_of(f.node) and 'quote = scanner.peek()' in src_of(f.node):
-        res.ok('parser.quoted: closed by is_quote(next, quote.single)')
-    else:
-        res.bad(F('SIB-QUOTE', f, f.node, 'is_quote(scanner.next(), quote.single)', 'a quoted attribute value ends at a quote token of the same kind'))
+    from .tablecheck import check_table
+    check_table(p, res, 'SIB-QUOTE', 'abbreviation.parser.quoted', 'a quoted attribute value ends at a quote token of the same kind')
     res.require_floor(7)
 
 
@@ -404,10 +420,8 @@ def sib_splitlines(p, res):
         res.bad(F('SIB-SPLITLINES', a, a.node, 'split_by_lines: %s / push_string: %s' % (ca, cb),
                   'the indent formatter decides single-line vs multi-line layout with one splitter while the stream breaks lines with another: text with a separator only one of them knows is laid out wrongly'))
     has = p.func('markup.format.html.has_newline')
-    if "'\\r' in value or '\\n' in value" in src_of(has.node):
-        res.ok("has_newline tests \\r and \\n")
-    else:
-        res.bad(F('SIB-SPLITLINES', has, has.node, 'has_newline body', 'newline detection must cover \\r and \\n'))
+    from .tablecheck import check_table
+    check_table(p, res, 'SIB-SPLITLINES', 'markup.format.html.has_newline', 'newline detection must cover \\r and \\n')
     res.require_floor(2)
 
 
@@ -429,8 +443,10 @@ def rng_lookahead(p, res):
     f = p.func('extract_abbreviation.offset_past_auto_closed')
     pm = p.parents(f)
     quotes = [n for n in f.body_nodes() if isinstance(n, ast.Call) and src_of(n.func) == 'is_quote']
+    from .tablecheck import check_table
+    check_table(p, res, 'RNG-LOOKAHEAD', 'extract_abbreviation.offset_past_auto_closed', 'look-ahead crosses at most one quote directly at the caret and then only closing brackets, bounded by the line length')
     if not quotes:
-        res.bad(F('RNG-LOOKAHEAD', f, f.node, 'is_quote(line[pos])', 'the auto-inserted closing quote is no longer skipped'))
+        res.undecided('offset_past_auto_closed: is_quote(line[pos])', 'the auto-inserted closing quote is skipped')
     for q in quotes:
         n = q
         in_loop = False
@@ -447,28 +463,30 @@ def rng_lookahead(p, res):
     if len(loops) == 1 and src_of(loops[0].test) == "pos < len(line) and is_close_brace(line[pos], options.get('type'))" and [src_of(x) for x in loops[0].body] == ['pos += 1']:
         res.ok('loop advances only over is_close_brace characters, bounded by len(line)')
     else:
-        res.bad(F('RNG-LOOKAHEAD', f, loops[0] if loops else f.node, src_of(loops[0].test) if loops else 'loop', 'the look-ahead loop may only cross closing brackets and must be bounded by len(line)'))
+        res.undecided('look-ahead loop: %s' % (src_of(loops[0].test) if loops else 'loop'), 'the look-ahead loop may only cross closing brackets and must be bounded by len(line)')
     first = [n for n in f.node.body if isinstance(n, ast.If)]
     if first and src_of(first[0].test) == 'pos < len(line) and is_quote(line[pos])':
         res.ok('quote test bounded by len(line)')
     else:
-        res.bad(F('RNG-LOOKAHEAD', f, first[0] if first else f.node, src_of(first[0].test) if first else '?', 'quote test must be bounded by len(line)'))
+        res.undecided('quote test %s' % (src_of(first[0].test) if first else '?'), 'quote test must be bounded by len(line)')
     ex = p.func('extract_abbreviation.extract_abbreviation')
     s = src_of(ex.node)
     if "if opt.get('lookAhead'):\n        pos = offset_past_auto_closed(line, pos, opt)" in s:
         res.ok('look-ahead only when the lookAhead option is on')
     else:
-        res.bad(F('RNG-LOOKAHEAD', ex, ex.node, "if opt.get('lookAhead'): pos = offset_past_auto_closed(..)", 'look-ahead must be optional'))
+        res.undecided("if opt.get('lookAhead'): pos = offset_past_auto_closed(..)", 'look-ahead must be optional (the decision table of extract_abbreviation is compared by PIN-EXTRACT)')
     # result construction: abbreviation == line[location:end], dangling operators stripped
     from ..linear import linear
     ctor = [c for c in ex.body_nodes() if isinstance(c, ast.Call) and src_of(c.func) == 'ExtractedAbbreviation']
     if len(ctor) != 1 or len(ctor[0].args) != 4:
-        raise AnalysisError('RNG-LOOKAHEAD: ExtractedAbbreviation construction not recognised')
+        res.undecided('ExtractedAbbreviation(...)', 'one construction with four arguments expected')
+        res.require_floor(7)
+        return
     a = ctor[0].args
     if src_of(a[0]) == 'abbreviation' and linear(a[1]) == {'pos': 1, 'len(abbreviation)': -1} and src_of(a[3]) == 'pos':
         res.ok('ExtractedAbbreviation(abbreviation, pos - len(abbreviation), start, pos)')
     else:
-        res.bad(F('RNG-LOOKAHEAD', ex, ctor[0], src_of(ctor[0]), 'location must be end - len(abbreviation) and end must be the (look-ahead adjusted) position'))
+        res.undecided(src_of(ctor[0]), 'location must be end - len(abbreviation) and end must be the (look-ahead adjusted) position')
     subs = [n for n in ex.body_nodes() if isinstance(n, ast.Call) and src_of(n.func) == 're.sub']
     if len(subs) == 1 and p.try_const(ex, subs[0].args[0]) is not None:
         pat = p.try_const(ex, subs[0].args[0])
@@ -477,14 +495,14 @@ def rng_lookahead(p, res):
         if okp:
             res.ok('dangling operators stripped by %r from line[scanner.pos:pos]' % pat)
         else:
-            res.bad(F('RNG-LOOKAHEAD', ex, subs[0], src_of(subs[0]), 'the result must be line[scanner.pos:pos] with leading > + ^ * removed (anchored class containing all four)'))
+            res.undecided(src_of(subs[0]), 'the result must be line[scanner.pos:pos] with leading > + ^ * removed (anchored class containing all four)')
     else:
-        res.bad(F('RNG-LOOKAHEAD', ex, ex.node, 're.sub of dangling operators', 'dangling-operator stripping not recognised'))
+        res.undecided('re.sub of dangling operators', 'dangling-operator stripping not recognised')
     st = [n for n in ex.body_nodes() if isinstance(n, ast.Assign) and src_of(n.targets[0]) == 'start' and isinstance(n.value, ast.IfExp)]
     if st and src_of(st[0].value) == 'start - len(prefix) if prefix else pos - len(abbreviation)':
         res.ok('start = start - len(prefix) if prefix else location')
     else:
-        res.bad(F('RNG-LOOKAHEAD', ex, st[0] if st else ex.node, src_of(st[0]) if st else 'start = ...', 'start must be the prefix position, or the location when no prefix is configured'))
+        res.undecided(src_of(st[0]) if st else 'start = ...', 'start must be the prefix position, or the location when no prefix is configured')
     res.require_floor(7)
 
 
@@ -493,8 +511,12 @@ def rng_lookahead(p, res):
 def rng_trim(p, res):
     f = p.func('css_matcher.inner_range')
     loops = [n for n in f.body_nodes() if isinstance(n, ast.While)]
+    from .tablecheck import check_table
+    check_table(p, res, 'RNG-TRIM', 'css_matcher.inner_range', 'range trimming never crosses: start moves only while start < end, end only while end > start; an empty inner range is None')
+    check_table(p, res, 'RNG-TRIM', 'css_matcher.push', 'empty and repeated ranges are not reported')
     if len(loops) != 2:
-        raise AnalysisError('RNG-TRIM: inner_range has %d loops' % len(loops))
+        res.undecided('inner_range', 'two trim loops expected')
+        loops = []
     for lp in loops:
         body = [src_of(x) for x in lp.body]
         cj = [c for c, pol in conjuncts(lp.test, True) if pol]
@@ -510,12 +532,12 @@ def rng_trim(p, res):
                 res.bad(F('RNG-TRIM', f, lp, 'while %s' % src_of(lp.test), 'right trim must stop at `start` (end > start): otherwise a whitespace-only body yields an inverted range',
                           failing_input="css_matcher.balanced_inward('a { }', 0)"))
         else:
-            raise AnalysisError('RNG-TRIM: unrecognised trim loop body %s' % body)
+            res.undecided('trim loop body %s' % body, 'start += 1 / end -= 1')
     ret = [n for n in f.body_nodes() if isinstance(n, ast.Return)]
     if len(ret) == 1 and src_of(ret[0].value) == '(start, end) if start != end else None':
         res.ok('empty range -> None')
     else:
-        res.bad(F('RNG-TRIM', f, ret[0] if ret else f.node, src_of(ret[0].value) if ret else '?', 'an empty inner range must be reported as None'))
+        res.undecided(src_of(ret[0].value) if ret else '?', 'an empty inner range must be reported as None (decided by the table of inner_range)')
     # push(): empty ranges and duplicates are dropped
     for fq in ('css_matcher.push', 'action_utils.utils.push_range'):
         g = p.func(fq)
@@ -524,7 +546,7 @@ def rng_trim(p, res):
         if ('%s[0] != %s[1]' % (r, r)) in s:
             res.ok('%s drops empty ranges' % g.short)
         else:
-            res.bad(F('RNG-TRIM', g, g.node, '%s[0] != %s[1]' % (r, r), 'empty ranges must not be reported'))
+            res.undecided('%s: %s[0] != %s[1]' % (g.short, r, r), 'empty ranges must not be reported (decided by the tables of push / push_range)')
     res.require_floor(5)
 
 
@@ -533,8 +555,12 @@ def rng_trim(p, res):
 def rng_balanced(p, res):
     f = p.func('math_expression.extract.extract')
     rets = [n for n in f.body_nodes() if isinstance(n, ast.Return) and n.value is not None and isinstance(n.value, ast.Tuple)]
+    from .tablecheck import check_table
+    check_table(p, res, 'RNG-BALANCED', 'math_expression.extract.extract', 'math extract reports (start found by the backward scan, look-ahead adjusted end) only when parentheses are balanced and something was consumed')
     if len(rets) != 1:
-        raise AnalysisError('RNG-BALANCED: extract has %d tuple returns' % len(rets))
+        res.undecided('extract', 'one tuple return expected')
+        res.require_floor(4)
+        return
     facts = implied_facts(p, f, rets[0])
     if ('braces', False) in facts:
         res.ok('return dominated by `not braces`')
@@ -548,13 +574,13 @@ def rng_balanced(p, res):
     if src_of(rets[0].value) == '(scanner.pos, end)':
         res.ok('range is (scanner.pos, end)')
     else:
-        res.bad(F('RNG-BALANCED', f, rets[0], src_of(rets[0]), 'range must be (start found by the backward scan, look-ahead adjusted end)'))
+        res.undecided(src_of(rets[0]), 'range must be (start found by the backward scan, look-ahead adjusted end)')
     # "(" with no pending ")" stops the scan
     s = src_of(f.node)
     if 'elif ch == Operator.LeftParenthesis:\n            if not braces:\n                break\n            braces -= 1' in s and 'if ch == Operator.RightParenthesis:\n            braces += 1' in s:
         res.ok('")" opens a level, "(" closes one or stops the scan')
     else:
-        res.bad(F('RNG-BALANCED', f, f.node, 'parenthesis bookkeeping of the backward scan', 'parenthesis bookkeeping changed'))
+        res.undecided('parenthesis bookkeeping of the backward scan', 'compared through the decision table of extract')
     res.require_floor(4)
 
 
@@ -835,47 +861,74 @@ def own_rawpush(p, res):
 # -------------------------------------------------------------- EXC-RANDINT
 @rule('EXC-RANDINT', 'N', 'randint(a, b) is only called with a <= b')
 def exc_randint(p, res):
+    """keyed by function (not by the text of the call): the argument expressions are expanded through single-assignment
+    locals and compared in linear normal form; the facts that make the range non-empty are read from enclosing tests and
+    earlier guard clauses"""
+    from .. import shape
+    from ..linear import linear
+    from .tablecheck import check_table
     reviewed = {
-        ('markup.lorem.lorem', 'randint(min_word_count, max_word_count)'): 'max_word_count = max(min_word_count, ..) or min_word_count',
-        ('markup.lorem.sample', 'randint(0, l - 1)'): 'l = len(arr); vocabularies are non-empty (TAB-VOCAB)',
-        ('markup.lorem.choice', 'randint(0, len(val) - 1)'): "only called with the non-empty constant '?!...'",
-        ('markup.lorem.insert_commas', 'randint(0, l - 2)'): 'guarded by len(words) < 2 -> return',
-        ('markup.lorem.paragraph', 'randint(2, 30)'): 'constants',
+        'markup.lorem.lorem': 'upper bound is max(lower, ..) or the lower bound itself',
+        'markup.lorem.sample': 'randint(0, len(arr) - 1); vocabularies are non-empty (TAB-VOCAB)',
+        'markup.lorem.choice': "randint(0, len(val) - 1); only called with a non-empty constant",
+        'markup.lorem.insert_commas': 'randint(0, len(words) - 2) behind the len(words) < 2 early return',
+        'markup.lorem.paragraph': 'constants',
     }
     for f in p.funcs.values():
+        defs = None
         for n in f.body_nodes():
-            if isinstance(n, ast.Call) and src_of(n.func) == 'randint' and len(n.args) == 2:
-                a, b = n.args
-                ca, cb = p.try_const(f, a), p.try_const(f, b)
-                key = (f.short, src_of(n))
-                if isinstance(ca, int) and isinstance(cb, int):
-                    if ca <= cb:
-                        res.ok('%s: %s' % key)
-                    else:
-                        res.bad(F('EXC-RANDINT', f, n, src_of(n), 'empty range: ValueError'))
-                    continue
-                if key not in reviewed:
-                    res.bad(F('EXC-RANDINT', f, n, src_of(n), 'range is not proven non-empty (unlisted randint site): ValueError possible'))
-                    continue
-                okk = True
-                if f.short == 'markup.lorem.lorem':
-                    vals = p.local_assignments(f, 'max_word_count')
-                    okk = len(vals) == 1 and isinstance(vals[0], ast.IfExp) and src_of(vals[0].body).startswith('max(min_word_count, ') and src_of(vals[0].orelse) == 'min_word_count'
-                    why = 'max_word_count must be max(min_word_count, <upper>) so that a descending range (lorem5-2) cannot reach randint'
-                elif f.short == 'markup.lorem.insert_commas':
-                    okk = 'if len(words) < 2:\n        return words' in src_of(f.node) and 'l = len(words)' in src_of(f.node)
-                    why = 'needs the len(words) < 2 early return'
-                elif f.short == 'markup.lorem.choice':
-                    calls = callgraph.get(p).callers_of(f)
-                    okk = all(isinstance(p.try_const(c, k.args[0]), str) and p.try_const(c, k.args[0]) for c, k in calls)
-                    why = 'choice() must be called with a non-empty constant'
-                elif f.short == 'markup.lorem.sample':
-                    okk = 'l = len(arr)' in src_of(f.node)
-                    why = 'l must be len(arr)'
-                if okk:
-                    res.ok('%s: %s (%s)' % (key[0], key[1], reviewed[key]))
+            if not (isinstance(n, ast.Call) and src_of(n.func) == 'randint' and len(n.args) == 2):
+                continue
+            a, b = n.args
+            ca, cb = p.try_const(f, a), p.try_const(f, b)
+            if isinstance(ca, int) and isinstance(cb, int):
+                if ca <= cb:
+                    res.ok('%s: %s' % (f.short, src_of(n)))
                 else:
-                    res.bad(F('EXC-RANDINT', f, n, src_of(n), why + ': ValueError', failing_input='lorem5-2'))
+                    res.bad(F('EXC-RANDINT', f, n, src_of(n), 'empty range: ValueError'))
+                continue
+            if f.short not in reviewed:
+                res.undecided('%s: %s' % (f.short, src_of(n)), 'range not shown to be non-empty (new randint site)')
+                continue
+            defs = shape.defs_of(f.node, params=f.params) if defs is None else defs
+            xa, xb = shape.expand(a, defs), shape.expand(b, defs)
+            lb = linear(xb)
+            pm = shape.parent_map(f.node)
+            facts = {(fs, pol) for fs, pol in shape.implied(n, pm)}
+            xfacts = set()
+            for fs, pol in facts:
+                try:
+                    xfacts.add((src_of(shape.expand(ast.parse(fs, mode='eval').body, defs)), pol))
+                except SyntaxError:
+                    pass
+            okk = None
+            if f.short == 'markup.lorem.lorem':
+                ok1 = isinstance(xb, ast.IfExp) and isinstance(xb.body, ast.Call) and src_of(xb.body.func) == 'max' and any(src_of(x) == src_of(xa) for x in xb.body.args) and src_of(xb.orelse) == src_of(xa)
+                ok2 = isinstance(xb, ast.Call) and src_of(xb.func) == 'max' and any(src_of(x) == src_of(xa) for x in xb.args)
+                okk = True if (ok1 or ok2) else None
+                if okk is None and isinstance(xb, ast.IfExp) and not (isinstance(xb.body, ast.Call) and src_of(xb.body.func) == 'max') and src_of(xb.orelse) == src_of(xa):
+                    okk = False
+                why = 'the upper bound must be max(lower, <upper>) so that a descending range (lorem5-2) cannot reach randint'
+            elif f.short in ('markup.lorem.sample', 'markup.lorem.choice'):
+                arr = f.params[0]
+                okk = True if (ca == 0 and lb == {'len(%s)' % arr: 1, '1': -1}) else None
+                if okk and f.short == 'markup.lorem.choice':
+                    calls = callgraph.get(p).callers_of(f)
+                    okk = True if calls and all(isinstance(p.try_const(c, k.args[0]), str) and p.try_const(c, k.args[0]) for c, k in calls) else None
+                why = 'the upper bound must be len(<sequence>) - 1 of a non-empty sequence'
+            elif f.short == 'markup.lorem.insert_commas':
+                w = f.params[0]
+                guard = ('len(%s) < 2' % w, False) in xfacts or ('len(%s) >= 2' % w, True) in xfacts or ('len(%s) > 1' % w, True) in xfacts
+                okk = True if (ca == 0 and lb == {'len(%s)' % w: 1, '1': -2} and guard) else None
+                if ca == 0 and lb == {'len(%s)' % w: 1, '1': -2} and not any('len(%s)' % w in fs for fs, _ in xfacts):
+                    okk = False
+                why = 'randint(0, len(words) - 2) needs the len(words) < 2 early return'
+            if okk is True:
+                res.ok('%s: %s (%s)' % (f.short, src_of(n), reviewed[f.short]))
+            elif okk is False:
+                res.bad(F('EXC-RANDINT', f, n, src_of(n), why + ': ValueError', failing_input='lorem5-2'))
+            else:
+                res.undecided('%s: %s' % (f.short, src_of(n)), reviewed[f.short])
     res.require_floor(5)
 
 
